@@ -120,18 +120,24 @@ def carrier(draw, reg, mb):
     df = draw(st.sampled_from([20, 21]))
     ac = draw(gen.ubits(13))
     if reg == "60" and df == 20 and D.getbits(mb, 13, 13) and D.getbits(mb, 24, 24):
-        how = draw(st.sampled_from(["derive", "derive", "noalt", "df21"]))
+        how = draw(st.sampled_from(["derive", "derive", "derive_low", "noalt", "df21"]))
         if how == "df21":
             df = 21
         elif how == "noalt":
             ac = 0
         else:
-            n = draw(st.one_of(gen.uint(40, 2040), gen.uint(1480, 2040)))  # 0 .. 50000 ft (half of them above the tropopause), Q=1 code
+            n = draw(st.one_of(gen.uint(0, 2040), gen.uint(1480, 2040), gen.uint(0, 60)))  # -1000 .. 50000 ft (below sea level and above the tropopause over-weighted)
+            offs = [0, 1, -1, 10, -10, 16, -16, 17, -17]
+            if how == "derive_low":  # below sea level the calibrated airspeed exceeds Mach x a0: the upper edge of the 20 kt rule at its extreme
+                n = draw(gen.uint(0, 24))
+                offs = [16, 17, 17]
+                if D.getbits(mb, 25, 34) < 100:
+                    mb = D.place(mb, 25, 34, draw(gen.uint(100, 250)))
             ac = gillham_q1(n)
             alt = n * 25 - 1000
             mach = D.getbits(mb, 25, 34) * 2.048 / 512
             cas = isa.mach2cas(mach, alt * isa.FT) / isa.KTS
-            ias = int(round(cas)) + draw(st.sampled_from([0, 1, -1, 10, -10, 16, -16, 17, -17]))  # up to the 18 kt reference margin
+            ias = int(round(cas)) + draw(st.sampled_from(offs))  # up to the 18 kt reference margin
             mb = D.place(mb, 14, 23, max(0, min(500, ias)))
     return {"reg": reg, "mb": mb, "df": df, "ac": ac, "ctx_head": draw(gen.ubits(27)), "ctx_addr": draw(gen.ubits(24)), "hc": draw(gen.hexcase)}
 
